@@ -1,5 +1,6 @@
 """Unit `fri` (C07 gadget kernel, C20 polynomial/exponent gadgets): real text of recursion/src/pcs/fri/verifier.rs
-{one_hot_from_two_bits, one_hot_from_three_bits, arity2_fold_at_point, evaluate_polynomial, circuit_exp_by_constant}."""
+{one_hot_from_two_bits, one_hot_from_three_bits, arity2_fold_at_point, evaluate_polynomial, circuit_exp_by_constant,
+reconstruct_evals (all arities: closed forms 1/2/4/8 and the generic one-hot + cumulative-sum path)}."""
 import os
 
 from vf.unit import Unit
@@ -64,9 +65,11 @@ def build():
     u = Unit('fri', ['C07', 'C20'])
     u.rlimit = 100
     u.assume('builder arithmetic contracts as in unit gad (assumed); field laws; 64-bit usize')
+    u.assume('one_hot_from_bits (generic arity) returns the indicator vector of the little-endian index -- ASSUMED callee of reconstruct_evals (its 2-/3-bit kernels are proved here); CircuitBuilder::select as proved in unit gad')
     u.assume('usize::BITS - n.leading_zeros() is the bit length of n (stub bit_length); EF::NEG_ONE * EF::ONE.halve() is the field constant -1/2 (uninterpreted neg_half)')
     u.text(open(os.path.join(HERE, 'gadget_prelude.rs')).read())
     u.text(SPEC)
+    u.text(open(os.path.join(HERE, 'fri_rec_spec.rs')).read())
     V = 'recursion/src/pcs/fri/verifier.rs'
 
     def sigfix(f):
@@ -166,10 +169,75 @@ def build():
         }''')
     ce.bind_tail('res_', 'proof { assert((n >> 0u32) == n) by (bit_vector); }')
 
+    # ---------------------------------------------------------------- reconstruct_evals: the native row [siblings.., folded at idx, ..siblings]
+    re_ = sigfix(u.extract(V, '', 'reconstruct_evals', 'reconstruct_evals'))
+    re_.set_sig('R11', 'fn reconstruct_evals<EF: FieldX>(builder: &mut CircuitBuilder<EF>, folded: Target, siblings: &[Target], index_in_group_bits: &[Target]) -> Vec<Target>')
+    re_.rewrite_re('R9', r'debug_assert_eq!\(siblings\.len\(\), arity - 1\);', 'assert(siblings.len() == arity - 1);', min_count=0)
+    re_.rewrite_re('R1', r'let \[([^\]]+)\] = (one_hot_from_\w+\([^;]*\));',
+                   lambda m: 'let hh_ = ' + m.group(2) + '; ' + ' '.join(f'let {n.strip()} = hh_[{k}];' for k, n in enumerate(m.group(1).split(','))), min_count=0)
+    re_.requires('allocated', 'old(builder).has(folded) && old(builder).has_all(siblings@) && old(builder).has_all(index_in_group_bits@)')
+    re_.requires('boolean_index_bits', 'all_bool(old(builder).vals_of(index_in_group_bits@)) && index_in_group_bits@.len() < 32')
+    re_.requires('documented_shape', 'siblings@.len() == p2(index_in_group_bits@.len() as int) - 1')
+    re_.ensures('frame', 'final(builder).extends_pure(old(builder)) && final(builder).has_all(ret@) && ret@.len() == p2(index_in_group_bits@.len() as int)')
+    re_.ensures('native_row_placement', """({ let b = old(builder); let idx = le_index(b.vals_of(index_in_group_bits@));
+            forall|j: int| 0 <= j < ret@.len() ==> final(builder).val(#[trigger] ret@[j]) == placed(b.val(folded), b.vals_of(siblings@), idx, j) })""")
+    re_.at_start("""let ghost bv = builder.vals_of(index_in_group_bits@); let ghost idx = le_index(bv); let ghost sv = builder.vals_of(siblings@); let ghost fv = builder.val(folded);
+        proof {
+            lemma_simp::<EF>(); lemma_le_index_range(bv); lemma_shl_p2(index_in_group_bits.len());
+            reveal_with_fuel(le_index, 4); reveal_with_fuel(p2, 5);
+            assert forall|k: int| 0 <= k < siblings@.len() implies builder.has(#[trigger] siblings@[k]) && sv[k] == builder.val(siblings@[k]) by {}
+            assert forall|k: int| 0 <= k < index_in_group_bits@.len() implies builder.has(#[trigger] index_in_group_bits@[k]) && is_bool(builder.val(index_in_group_bits@[k])) by { assert(is_bool(bv[k])); }
+        }""")
+
+    G_ = ('builder.extends_pure(old(builder)) && arity == p2(log_arity as int) && arity >= 16 && siblings@.len() == arity - 1 && one_hot@.len() == arity && builder.has_all(one_hot@)'
+          ' && builder.has_all(siblings@) && builder.has(folded) && builder.val(folded) == fv && builder.vals_of(siblings@) == sv && 0 <= idx < arity'
+          ' && (forall|k: int| 0 <= k < arity ==> builder.val(#[trigger] one_hot@[k]) == ind::<EF>(k == idx)) && EF::fzero() != EF::fone()')
+    re_.before('let mut cum = Vec::with_capacity(arity);', """proof {
+                lemma_p2_ge16(log_arity as int);
+                assert(builder.vals_of(siblings@) =~= sv);
+            }""")
+    re_.loop('for j in 1..arity', invariants=[
+        ('ctx', G_),
+        ('cum', 'cum@.len() == j && builder.has_all(cum@) && forall|k: int| 0 <= k < j ==> builder.val(#[trigger] cum@[k]) == ind::<EF>(idx <= k)'),
+    ])
+    re_.at_loop_end('for j in 1..arity', """proof {
+                    lemma_simp::<EF>();
+                    assert(builder.vals_of(siblings@) =~= sv);
+                    assert forall|k: int| 0 <= k < cum@.len() implies builder.has(#[trigger] cum@[k]) && builder.val(cum@[k]) == ind::<EF>(idx <= k) by {}
+                }""")
+    re_.loop('for j in 0..arity', invariants=[
+        ('ctx', G_),
+        ('cum', 'cum@.len() == arity && builder.has_all(cum@) && forall|k: int| 0 <= k < arity ==> builder.val(#[trigger] cum@[k]) == ind::<EF>(idx <= k)'),
+        ('row', 'evals@.len() == j && builder.has_all(evals@) && forall|k: int| 0 <= k < j ==> builder.val(#[trigger] evals@[k]) == placed(fv, sv, idx, k)'),
+    ])
+    re_.at_loop_end('for j in 0..arity', """proof {
+                    assert(builder.vals_of(siblings@) =~= sv);
+                    assert forall|k: int| 0 <= k < evals@.len() implies builder.has(#[trigger] evals@[k]) && builder.val(evals@[k]) == placed(fv, sv, idx, k) by {}
+                }""")
+
+    re_.before('builder.pop_scope(); evals', """proof {
+            let la = log_arity as int;
+            if la == 0 {
+                assert(forall|j: int| 0 <= j < evals@.len() ==> builder.val(#[trigger] evals@[j]) == placed(fv, sv, idx, j)); // @@A:arity1_row
+            }
+            else if la == 1 {
+                assert(forall|j: int| 0 <= j < evals@.len() ==> builder.val(#[trigger] evals@[j]) == placed(fv, sv, idx, j)); // @@A:arity2_row
+            }
+            else if la == 2 {
+                assert(forall|j: int| 0 <= j < evals@.len() ==> builder.val(#[trigger] evals@[j]) == placed(fv, sv, idx, j)); // @@A:arity4_row
+            }
+            else if la == 3 {
+                assert(forall|j: int| 0 <= j < evals@.len() ==> builder.val(#[trigger] evals@[j]) == placed(fv, sv, idx, j)); // @@A:arity8_row
+            }
+            else {
+                assert(forall|j: int| 0 <= j < evals@.len() ==> builder.val(#[trigger] evals@[j]) == placed(fv, sv, idx, j)); // @@A:generic_arity_row
+            }
+        }""")
+
     u.text('''verus! {
 pub proof fn lemma_mul_zero_right<F: Field>(a: F) ensures a.fmul(F::fzero()) == F::fzero() { F::mul_comm(a, F::fzero()); lemma_mul_zero_left(a); }
 ''')
-    for f in (t2, t3, af, ep, ce):
+    for f in (t2, t3, af, ep, ce, re_):
         u.emit(f)
     u.text('}')
     return u
